@@ -19,7 +19,7 @@ class P(vlib.Prop):
             "outcomes of fn — sequences of calls over several keys (a failure, then successes; random scripts) and n callers arriving while the leader's "
             "execution is held — compared with the model run in the configuration goextract reads from the shape of the source, and judged by the verified "
             "validator (c19_flight_seq_sound); three builds in ONE process sharing one apk.Cache with a transient fault of the origin during the first "
-            "(key discovery, a package, the index), compared with the same process history WITHOUT cache. (e) fetchOffline: real directories with chosen "
+            "(key discovery, a package; index faults are run and counted, never raised), compared with the same process history WITHOUT cache. (e) fetchOffline: real directories with chosen "
             "modification times (ties, leftovers, every order of three revisions' names, two files in one directory) and the directories real builds left "
             "behind (failed download in a surviving process, three publications in every order, keyring URLs) handed to the real fetchOffline; the entry it "
             "opened is compared with pick_newest and judged by validate_offline (c19_offline_validator_decides). (f) one scenario through the repository's "
@@ -40,7 +40,9 @@ class P(vlib.Prop):
         "the cache directory is written by apko builders only; tampering by other parties is explored (tamper stage) but is outside the quantifier of the property",
         "coalescing model: the fast-path map lookup, the entry into the singleflight group / sync.Once and the end of fn are atomic events (sync.Map, singleflight and "
         "sync.Once are trusted to be linearizable); transient faults of the origin are not in the property's quantifier: they are the means to make the coalescing objects "
-        "observable across builds of one process (findings C19-F4/F7 are stated relative to the same process history without cache)",
+        "observable across builds of one process: what is judged is the state the CACHE's own in-process memos are left in by a build that failed (later builds against a healthy "
+        "origin must equal the same process history without cache; was finding C19-F4); behaviour WHILE the origin misbehaves, and memos that are not the cache's (the parsed-index memo), "
+        "are not judged (the former C19-F7 was withdrawn as demanding more than the property states)",
         "offline choice: directory entries carry the modification time of their last write (a symbolic link: its creation); two downloads within one clock tick tie and "
         "the listing order decides (modelled: pick_newest takes the first of the newest)",
     )
@@ -51,18 +53,22 @@ class P(vlib.Prop):
                   "c19_head_etag_refuted / c19_shared_temp_refuted pin the two design decisions (name by the GET response's etag; private temporary names, "
                   "c19_private_temp_names hypothesis-free) and c19_index_name_code / c19_temp_names_code / c19_code_order tie them and the order of the durable calls "
                   "to the source read by goextract; c19_transparent: from any sound state an atomic lookup is a miss or exactly the origin's bytes; "
-                  "c19_entries_stable, c19_cache_package_skips_rebuild; c19_tarfile_rebuild (C19-F1/F1b fixed by 90139a3). REFUTED with machine-checked witnesses: "
-                  "c19_offline_refuted (an error on the real code, allowed), c19_lookup_not_atomic_refuted (finding C19-F2) and c19_stale_hit_without_sig_refuted "
-                  "(finding C19-F3): a hit can lack the signature section, whose size is written into the image. c19_f2_fix_transparent: with the control section "
-                  "advertised last (fixes/C19-F2.patch, proposed) a lookup that reads the four sections in four different states is exact. "
+                  "c19_entries_stable, c19_cache_package_skips_rebuild; c19_tarfile_rebuild (C19-F1/F1b fixed by 90139a3). REFUTED with machine-checked witnesses, all about OLD shapes of the code (kept "
+                  "as the reasons for the repairs): c19_offline_refuted (a choice that may fall on a temporary file: before c5d0145), c19_lookup_not_atomic_refuted (was C19-F2) and "
+                  "c19_stale_hit_without_sig_refuted (was C19-F3; control section advertised first: before 6729dee). c19_f2_fix_transparent: with the control section "
+                  "advertised last (the code since 6729dee) a lookup that reads the four sections in four different states is exact. "
                   "c19_offline_tmp_complete_is_origin: a temporary index file holds a prefix of a served body, the whole body when complete. "
                   "Coalescing (one model object for singleflight groups, flightCache.Do, the etag cache in front of headFlight, the sync.Once package memo; configuration "
                   "read from the source: c19_flight_code): c19_flight_transparent (every trace: a caller only ever gets a result some execution of fn returned for its key; "
                   "one execution per key at a time), c19_flight_no_error_memo (flight caches never keep a failure; after failures only, a later call executes again and its "
-                  "success is returned), c19_flight_memo_permanent, c19_flight_seq_sound; REFUTED c19_once_cache_error_memo_refuted (finding C19-F4: apkCache.get keeps "
-                  "errors). fetchOffline: c19_offline_picks_newest (every directory, every listing order, ties: the first newest entry; order-independent when the maximum "
-                  "is unique); REFUTED c19_offline_entry_refuted (findings C19-F5: a partial leftover *.tmp is opened; C19-F6: the entry of another file in a shared "
-                  "directory — a wrong image offline), with the two repairs proved.")
+                  "success is returned — also for the configuration read from apkCache.get, the per-process memo of expanded packages: c19_package_memo_forgets_failures, "
+                  "was finding C19-F4, fixed by 6e5c862), c19_flight_memo_permanent, c19_flight_seq_sound; c19_error_memoising_once_refuted is about a HYPOTHETICAL shape (a once-cache "
+                  "that keeps errors: the old apkCache.get, seeded C19-6). fetchOffline: c19_offline_code (advertised names only, fix c5d0145), c19_offline_picks_newest (every "
+                  "directory, every listing order, ties: the first newest entry; order-independent when the maximum is unique), c19_offline_entry_whole (the entry opened is an "
+                  "advertised name, no advertised entry is newer, whole whenever the advertised entries are: a partial temporary file is never opened; was finding C19-F5); "
+                  "c19_offline_all_entries_refuted is about the HYPOTHETICAL old choice among all entries; STILL REFUTED for the code of this run: "
+                  "c19_offline_shared_directory_refuted (finding C19-F6: in a directory shared by the cached copies of several files a request is answered with another "
+                  "file's entry — a wrong image offline; repair fixes/C19-F6.patch proved for the model).")
     level_note = ("trusted: Coq kernel, Go harness/printer and its path abstraction, strace; modelled not verified: the Go text of fetchAndCache / head / get / retrieveAndSaveFile / "
                   "AdvertiseCachedFile / ExpandApk / cachePackage / cachedPackage / PackageData / fetchOffline / flightCache.Do / apkCache.get, golang.org/x/sync/singleflight and "
                   "sync.Once themselves, the host filesystem, gzip/tar/RSA, net/http; "
